@@ -69,17 +69,20 @@ Typing(c, rules, alone, B) ==
                     LET k == c.refs[i] sq == SubQueries(alone, k, B.optin) IN
                     [j \in 1..Len(sq) |-> RuleId(rules[k]) \o GS \o sq[j]]])
          IN  T_TYPING \o US \o Join(items, US)
+\* the field of the condition: renamed like a field of the rules - unless it names an alias, which is a name of the
+\* correlation rule's own (the normalisation defines it, the group-by keeps it)
+CondField(c, map) == IF c.cond.field \in AliasNames(c) THEN c.cond.field ELSE Ren(map, c.cond.field)
 NumOrEmpty(has, n) == IF has THEN NatText(n) ELSE <<>>
 Aggregate(c, rules, B, map) ==
     c.type \o GS \o Timespan(c.ts, B.tsmode) \o GS \o GroupBy(c, map) \o GS
     \* the template receives the condition's field reference as given: absent prints as "None"
-    \o (IF c.cond.kind # "basic" THEN <<>> ELSE IF c.cond.hasfield THEN Ren(map, c.cond.field) ELSE <<78,111,110,101>>) \o GS
+    \o (IF c.cond.kind # "basic" THEN <<>> ELSE IF c.cond.hasfield THEN CondField(c, map) ELSE <<78,111,110,101>>) \o GS
     \o NumOrEmpty(c.cond.kind = "basic" /\ c.cond.haspct, c.cond.pct) \o (IF c.cond.kind = "basic" /\ c.cond.haspct /\ c.cond.frac THEN <<46, 53>> ELSE <<>>)
     \o GS \o RefList(c, rules)
 BasicCondition(c, rules, map) ==
     \* (a threshold may have a fractional part - an average, a percentile: frac = TRUE stands for count + 0.5)
     OpSymbol(c.cond.op) \o GS \o NatText(c.cond.count) \o (IF c.cond.frac THEN <<46, 53>> ELSE <<>>) \o GS
-    \o (IF c.cond.hasfield THEN Ren(map, c.cond.field) ELSE <<78,111,110,101>>) \o GS \o RefList(c, rules)   \* "None"
+    \o (IF c.cond.hasfield THEN CondField(c, map) ELSE <<78,111,110,101>>) \o GS \o RefList(c, rules)   \* "None"
 
 \* expected body for a basic condition (extended conditions are compared by truth table)
 Body(c, rules, alone, B, map, condtext) ==
